@@ -877,3 +877,78 @@ Proof.
   destruct (run_tasks pend okf (funcs_of ts) 0 ts st0) as [evs s'] eqn:Hrun. cbn [fst snd] in *.
   exact (run_tasks_exh pend okf (funcs_of ts) ts 0%nat st0 evs s' Hrun j tk Hj Hs k e Hk).
 Qed.
+
+(* ---------- an already-evicted hit is always backed by a true IsPodEvicted answer ---------- *)
+Section PendingAnswer.
+  Variables pend okf : nat -> pod -> bool.
+  Variable fs : list (nat * target).
+
+  Lemma run_pods_pending j tk : forall es k s evs s',
+    (forall i, nth_error es i = nth_error (t_pods tk) (k + i)) ->
+    run_pods pend okf fs j tk k es s = (evs, s') ->
+    forall j' k', In (EPending j' k') evs ->
+      j' = j /\ exists e n, nth_error (t_pods tk) k' = Some e /\ pend n (e_pod e) = true.
+  Proof.
+    induction es as [|e0 es' IH]; intros k s evs s' Hes Hrun j' k' Hin; cbn [run_pods] in Hrun.
+    - inversion Hrun; subst. destruct Hin.
+    - assert (Hk : nth_error (t_pods tk) k = Some e0).
+      { rewrite <- (Nat.add_0_r k). rewrite <- Hes. reflexivity. }
+      assert (Hes' : forall i, nth_error es' i = nth_error (t_pods tk) (S k + i)).
+      { intros i. replace (S k + i)%nat with (k + S i)%nat by lia. rewrite <- Hes. reflexivity. }
+      destruct (memZ (e_pod e0) (s_done s)); [eapply IH; eauto|].
+      destruct (pend (s_nq s) (e_pod e0)) eqn:Hp.
+      { match type of Hrun with context [short tk (s_rel ?x)] => set (s1 := x) in * end.
+        assert (Hhere : j' = j /\ k' = k ->
+                        j' = j /\ exists e n, nth_error (t_pods tk) k' = Some e /\ pend n (e_pod e) = true).
+        { intros [-> ->]. split; [reflexivity|]. exists e0, (s_nq s). auto. }
+        destruct (short tk (s_rel s1)).
+        - destruct (run_pods pend okf fs j tk (S k) es' s1) as [evs1 s2] eqn:Hr.
+          inversion Hrun; subst evs s'. destruct Hin as [Heq|Hin].
+          + inversion Heq; subst. apply Hhere. auto.
+          + eapply IH; eauto.
+        - inversion Hrun; subst evs s'. destruct Hin as [Heq|[]]. inversion Heq; subst.
+          apply Hhere. auto. }
+      destruct (okf (s_ne s) (e_pod e0)).
+      { match type of Hrun with context [short tk (s_rel ?x)] => set (s1 := x) in * end.
+        destruct (short tk (s_rel s1)).
+        - destruct (run_pods pend okf fs j tk (S k) es' s1) as [evs1 s2] eqn:Hr.
+          inversion Hrun; subst evs s'. destruct Hin as [Heq|Hin]; [discriminate|].
+          eapply IH; eauto.
+        - inversion Hrun; subst evs s'. destruct Hin as [Heq|[]]. discriminate. }
+      { match type of Hrun with context [run_pods _ _ _ _ _ _ _ ?x] => set (s1 := x) in * end.
+        destruct (run_pods pend okf fs j tk (S k) es' s1) as [evs1 s2] eqn:Hr.
+        inversion Hrun; subst evs s'. destruct Hin as [Heq|Hin]; [discriminate|].
+        eapply IH; eauto. }
+  Qed.
+
+  Lemma run_tasks_pending (ts : list task) : forall tl j s evs s',
+    (forall i, nth_error tl i = nth_error ts (j + i)) ->
+    run_tasks pend okf fs j tl s = (evs, s') ->
+    forall j' k', In (EPending j' k') evs ->
+      exists e n, entry_at ts j' k' = Some e /\ pend n (e_pod e) = true.
+  Proof.
+    induction tl as [|tk tl IH]; intros j s evs s' Htl Hrun j' k' Hin; cbn [run_tasks] in Hrun.
+    - inversion Hrun; subst. destruct Hin.
+    - assert (Hj : nth_error ts j = Some tk).
+      { rewrite <- (Nat.add_0_r j). rewrite <- Htl. reflexivity. }
+      assert (Htl' : forall i, nth_error tl i = nth_error ts (S j + i)).
+      { intros i. replace (S j + i)%nat with (j + S i)%nat by lia. rewrite <- Htl. reflexivity. }
+      destruct (short tk (s_rel s)); [|eapply IH; eauto].
+      destruct (run_pods pend okf fs j tk 0 (t_pods tk) s) as [ev1 s1] eqn:Hr1.
+      destruct (run_tasks pend okf fs (S j) tl s1) as [ev2 s2] eqn:Hr2.
+      inversion Hrun; subst evs s'. apply in_app_or in Hin. destruct Hin as [Hin|Hin].
+      + destruct (run_pods_pending j tk (t_pods tk) 0%nat s ev1 s1 (fun i => eq_refl) Hr1 j' k' Hin)
+          as [-> [e [n [He Hp]]]].
+        exists e, n. unfold entry_at. rewrite Hj. auto.
+      + eapply IH; eauto.
+  Qed.
+End PendingAnswer.
+
+Lemma model_pending_answer pend okf ts j k :
+  In (EPending j k) (fst (kill_and_evict pend okf ts)) ->
+  exists e n, entry_at ts j k = Some e /\ pend n (e_pod e) = true.
+Proof.
+  unfold kill_and_evict.
+  destruct (run_tasks pend okf (funcs_of ts) 0 ts st0) as [evs s'] eqn:Hrun. cbn [fst].
+  exact (run_tasks_pending pend okf (funcs_of ts) ts ts 0%nat st0 evs s' (fun i => eq_refl) Hrun j k).
+Qed.
